@@ -96,3 +96,26 @@ def pe_holding(inner: bytes, at: int):
     body = bytearray(b"\xcc" * size)
     body[at:at + len(inner)] = inner
     return hdr + b"\0" * (hdr_len - len(hdr)) + bytes(body), hdr_len + at
+
+
+def pe_at(lfanew: int, payload_len: int = 48, file_align: int = 0x10):
+    """A one-section PE32 image whose NT headers start at `lfanew` - including values below 0x40, where they overlap the DOS header and the
+    e_lfanew field (written last) doubles as some optional-header field ("tiny PE" layout)."""
+    opt_size = 0xE0
+    table = lfanew + 4 + 20 + opt_size
+    raw = -(-(table + 40) // file_align) * file_align
+    buf = bytearray(raw + payload_len)
+    buf[0:2] = b"MZ"
+    buf[lfanew:lfanew + 4] = b"PE\0\0"
+    struct.pack_into("<HHIIIHH", buf, lfanew + 4, 0x14C, 1, 0, 0, 0, opt_size, 0x102)
+    o = lfanew + 24
+    struct.pack_into("<H", buf, o, 0x10B)
+    struct.pack_into("<I", buf, o + 28, 0x400000)       # ImageBase
+    struct.pack_into("<II", buf, o + 32, 0x1000, file_align)  # SectionAlignment, FileAlignment
+    struct.pack_into("<I", buf, o + 56, 0x2000)         # SizeOfImage
+    struct.pack_into("<I", buf, o + 60, raw)            # SizeOfHeaders
+    struct.pack_into("<I", buf, o + 92, 16)             # NumberOfRvaAndSizes
+    struct.pack_into("<8sIIIIIIHHI", buf, table, b".text", payload_len, 0x1000, payload_len, raw, 0, 0, 0, 0, 0x60000020)
+    buf[raw:] = b"\xcc" * payload_len
+    struct.pack_into("<I", buf, 0x3C, lfanew)
+    return bytes(buf)
